@@ -201,9 +201,9 @@ theorem norm_scaled (s : ℝ) (hs : 0 ≤ s) (r : V3 ℝ) :
   rw [this, Real.sqrt_mul (sq_nonneg s), Real.sqrt_sq hs]
 
 /-- `log ∘ exp = id` on rotation vectors with `10⁻⁴ < ‖r‖ < π` whose half-angle sine clears the
-    second cut-off (`sin(‖r‖/2) > 10⁻⁴`) -/
+    cut-off of the logarithm (`sin(‖r‖/2) > 5·10⁻⁵`) -/
 theorem qlog_qexp (r : V3 ℝ) (h1 : (1e-4 : ℝ) < r.norm) (h2 : r.norm < π)
-    (h3 : (1e-4 : ℝ) < Real.sin (r.norm / 2)) : qlog (qexp r) = r := by
+    (h3 : (5e-5 : ℝ) < Real.sin (r.norm / 2)) : qlog (qexp r) = r := by
   have hn : 0 < r.norm := lt_trans (by norm_num) h1
   have hne : r.norm ≠ 0 := hn.ne'
   have hhalf0 : 0 < r.norm / 2 := by linarith
@@ -229,7 +229,7 @@ theorem qlog_qexp (r : V3 ℝ) (h1 : (1e-4 : ℝ) < r.norm) (h2 : r.norm < π)
 /-- the input offsets of the quaternion sigma points are the perturbations they were built from:
     `diff_quaternion(sum_quaternion_rotation_vector(q, r), q) = r` -/
 theorem qdiff_qsum (q : Quat ℝ) (hq : q.w ^ 2 + q.x ^ 2 + q.y ^ 2 + q.z ^ 2 = 1) (r : V3 ℝ)
-    (h1 : (1e-4 : ℝ) < r.norm) (h2 : r.norm < π) (h3 : (1e-4 : ℝ) < Real.sin (r.norm / 2)) :
+    (h1 : (1e-4 : ℝ) < r.norm) (h2 : r.norm < π) (h3 : (5e-5 : ℝ) < Real.sin (r.norm / 2)) :
     qdiff (qsum q r) q = r := by
   unfold qdiff qsum
   rw [qmul_assoc, qmul_qconj_self q hq, qmul_one, qlog_qexp r h1 h2 h3]
